@@ -65,6 +65,9 @@ def units(tier, seed):
     inf = float("inf")
     for minimize in (False, True):
         us.append({"kind": "single", "L": 3, "minimize": minimize, "alpha": [inf, -inf, 1]})
+        # real improvements that are tiny relative to the magnitude of the fitness
+        us.append({"kind": "single", "L": 3, "minimize": minimize, "alpha": [5e9, 5e9 + 1, 5e9 + 2, -5e9 - 1]})
+        us.append({"kind": "single", "L": 3, "minimize": minimize, "alpha": [1e-12, 2e-12, 0.0]})
     for mode in ("list-FF", "list-FT", "list-TT", "bool-F", "bool-T", "aggregate"):
         for L in range(1, 4 if tier == "quick" else 5):
             us.append({"kind": "multi", "L": L, "mode": mode})
@@ -164,7 +167,9 @@ def run_multi(unit) -> UnitResult:
     L, mode = unit["L"], unit["mode"]
     rep = StubRepresentation(2)
     vecs = list(itertools.product([0, 1, 2], repeat=2))
-    for seq in itertools.product(vecs, repeat=L):
+    for seq, represent in itertools.product(itertools.product(vecs, repeat=L), (None, "first", "previous")):
+        if represent and L < 2:
+            continue
         for batches in compositions(L):
             vals = {}
 
@@ -191,12 +196,17 @@ def run_multi(unit) -> UnitResult:
                 inds[-1].genotype.v = i
             pos = 0
             for b in batches:
-                tracker.evaluate(inds[pos: pos + b])
+                batch = inds[pos: pos + b]
+                if represent == "first" and pos > 0:
+                    batch = [inds[0]] + batch  # an already registered individual (possibly displaced since) comes again
+                elif represent == "previous" and pos > 0:
+                    batch = batch + [inds[pos - 1]]
+                tracker.evaluate(batch)
                 pos += b
             r.executions += 1
-            if len(set(agg(v) for v in seq)) < L:
+            if len(set(agg(v) for v in seq)) < L or represent:
                 r.nontrivial += 1
-            w = {"unit": unit, "sequence": [list(x) for x in seq], "batches": batches}
+            w = {"unit": unit, "sequence": [list(x) for x in seq], "batches": batches, "represent": represent}
             best_agg = None
             for k, (ind, is_best, best) in enumerate(rec.events):
                 a = agg(seq[ind.genotype.v])
